@@ -985,7 +985,7 @@ class Parser:
             "lbracket",
             "lbrace",
         } and not self.stream.current.test_any(
-            "name:else", "name:or", "name:and", "name:if"
+            "name:else", "name:or", "name:and", "name:if", "name:in", "name:not"
         ):
             if self.stream.current.test("name:is"):
                 self.fail("You cannot chain multiple tests with is")
